@@ -10,12 +10,23 @@ Import ListNotations.
 Definition all_mst := [MInit; MConnecting; MConnected; MOpening; MDisconnecting; MDisconnected].
 Definition all_slot : list (option dst) :=
   [None; Some DConnecting; Some DConnected; Some DDisconnecting; Some DDisconnected; Some DReset].
-Definition all_pend : list (option nat) := [None; Some 0; Some 1; Some 2].
+Definition all_pend : list (option nat) := [None; Some 0; Some 1; Some 2; Some 3; Some 4; Some 5].
 
 (* frames of channels 0 and 1, and the two frames that exist for the refused channel 2 *)
 Definition all_frames : list fr2 :=
-  [G_SABM0; G_UA0; G_DISC0; G_PNcmd 2; G_DM 2]
-  ++ flat_map (fun d => [G_PNcmd d; G_PNrsp d; G_DM d; G_SABM d; G_UA d; G_DISC d]) [0; 1].
+  [G_SABM0; G_UA0; G_DISC0; G_PNcmd 2; G_DM 2;
+   G_PNcmd 3; G_PNcmd 4; G_PNcmd 5; G_DM 3; G_DM 4; G_DM 5]
+  ++ flat_map (fun d => [G_PNcmd d; G_PNrsp d; G_DM d; G_SABM d; G_UA d; G_DISC d;
+                         G_PNcmdRB d; G_PNrspBad d]) [0; 1].
+
+(* is the frame size carried by a PN frame acceptable to the end that receives it *)
+Definition frame_size_ok (f : fr2) : bool :=
+  match f with
+  | G_PNcmd k => size_ok k
+  | G_PNrspBad _ => false
+  | _ => true
+  end.
+Definition is_rb (f : fr2) : bool := match f with G_PNcmdRB _ => true | _ => false end.
 
 Definition opt_dst_eqb (a b : option dst) : bool :=
   match a, b with
@@ -31,6 +42,7 @@ Definition fr2_eqb (a b : fr2) : bool :=
   match a, b with
   | G_SABM0, G_SABM0 | G_UA0, G_UA0 | G_DISC0, G_DISC0 => true
   | G_PNcmd x, G_PNcmd y | G_PNrsp x, G_PNrsp y | G_DM x, G_DM y
+  | G_PNcmdRB x, G_PNcmdRB y | G_PNrspBad x, G_PNrspBad y
   | G_SABM x, G_SABM y | G_UA x, G_UA y | G_DISC x, G_DISC y => Nat.eqb x y
   | _, _ => false
   end.
@@ -55,7 +67,7 @@ Definition frame_case_ok (responder : bool) (m : mst) (x y : option dst) (p : op
   let d := fr2_chan f in
   let s := mk_side m d x y p in
   let '(s', out, ev) := on_frame2 responder s f in
-  let E := mkEnv (fst (fin_of f)) responder (accepted d) in
+  let E := mkEnv (fst (fin_of f)) responder (accepted d) (frame_size_ok f) in
   let r := exec 3 src_handlers E src_h_on_pdu
              (mkIst (e_mux s) (to_full (slot s d)) (has_pend s) [] NoEv 0) in
   Nat.leb (i_stop r) 1 &&
@@ -63,7 +75,7 @@ Definition frame_case_ok (responder : bool) (m : mst) (x y : option dst) (p : op
   match of_full (i_dlc r) with Some z => opt_dst_eqb z (slot s' d) | None => false end &&
   opt_dst_eqb (slot s' (other d)) (slot s (other d)) &&
   opt_nat_eqb (e_pend s') (if i_open r then e_pend s else None) &&
-  frs_eqb (flat_map (fr2_of d) (i_out r)) out &&
+  frs_eqb (flat_map (fr2_of_gen (is_rb f) d) (i_out r)) out &&
   oev_eqb (i_ev r) ev.
 
 Definition all_frame_cases_ok : bool :=
@@ -73,14 +85,14 @@ Definition all_frame_cases_ok : bool :=
      forallb (fun y =>
       forallb (fun p =>
        forallb (fun f =>
-         (* channel 2 never has a table entry *)
-         if Nat.eqb (fr2_chan f) 2 && negb (opt_dst_eqb x None) then true
+         (* channels 2..5 never have a table entry *)
+         if Nat.leb 2 (fr2_chan f) && negb (opt_dst_eqb x None) then true
          else frame_case_ok responder m x y p f) all_frames) all_pend) all_slot) all_slot) all_mst)
    [true; false].
 
 (* MSC frames (left out of Model/RfcommSm2.v) change nothing and are answered only by MSC frames *)
 Definition msc_case_ok (responder : bool) (m : mst) (x : option dst) (opn : bool) (k : fkind) : bool :=
-  let E := mkEnv (mkFin k true) responder true in
+  let E := mkEnv (mkFin k true) responder true true in
   let r := exec 3 src_handlers E src_h_on_pdu (mkIst m (to_full x) opn [] NoEv 0) in
   Nat.leb (i_stop r) 1 && is_mst (i_mux r) m &&
   match of_full (i_dlc r) with Some z => opt_dst_eqb z x | None => false end &&
@@ -95,7 +107,7 @@ Definition all_msc_cases_ok : bool :=
 Definition st_of (a b : side2) : st2 := mkSt2 a b false false [] [].
 
 Definition op_case_ok (m : mst) (x y : option dst) (p : option nat) : bool :=
-  let nofr := mkEnv (mkFin KSabm true) false false in
+  let nofr := mkEnv (mkFin KSabm true) false false true in
   (* connect *)
   (let a := mk_side m 0 x y p in
    let s' := sm2_step (st_of a a) L_Connect in
@@ -111,13 +123,13 @@ Definition op_case_ok (m : mst) (x y : option dst) (p : option nat) : bool :=
    is_mst (e_mux (t_a s')) (i_mux r) && frs_eqb (t_ab s') (flat_map (fr2_of 0) (i_out r))) &&
   (* open_dlc(d), for a channel whose table entry is free (environment assumption) *)
   forallb (fun d =>
-    let a := mk_side m d None y None in
+    let a := mk_side m (chan_of d) None y None in
     let s' := sm2_step (st_of a a) (L_Open d) in
     let r := exec 3 src_handlers nofr src_h_open_dlc (mkIst m None false [] NoEv 0) in
     if Nat.eqb (i_stop r) 2
     then is_mst (e_mux (t_a s')) m && frs_eqb (t_ab s') [] && opt_nat_eqb (e_pend (t_a s')) None
     else is_mst (e_mux (t_a s')) (i_mux r) && frs_eqb (t_ab s') (flat_map (fr2_of d) (i_out r))
-         && i_open r && opt_nat_eqb (e_pend (t_a s')) (Some d)) [0; 1; 2] &&
+         && i_open r && opt_nat_eqb (e_pend (t_a s')) (Some d)) [0; 1; 2; 3; 4; 5] &&
   (* DLC.disconnect on either end *)
   forallb (fun d =>
     let a := mk_side m d x y p in
